@@ -213,6 +213,27 @@ def query_case(ctx, text, docs, options=False):
         d2 = copy.deepcopy(expand(d))
         o = guarded(lambda: [m.obj for m in c.value.finditer(d2, filter_context=gen.CTX_DEFAULT)])
         classify(ctx, o, (jsonpath.JSONPathError,), "evaluate", dict(case, doc=d))
+        if o.ok and isinstance(d2, (dict, list)) and ctx.rng.random() < 0.08:
+            # the same document handed over as a stream that the caller closes (or rewinds for another call) as soon as
+            # the lazy entry point has returned
+            import io
+
+            try:
+                jt = json.dumps(d2)
+            except (TypeError, ValueError):
+                jt = None
+            if jt is not None:
+                def lazy(which):
+                    st = io.StringIO(jt) if which != "bytes" else io.BytesIO(jt.encode("utf-16"))
+                    res = c.value.finditer(st) if which != "query" else c.value.query(st)
+                    if which == "rewound":
+                        st.seek(0)
+                        other = c.value.finditer(st)
+                        return [m.obj for m in res], [m.obj for m in other]
+                    st.close()
+                    return [m.obj for m in res]
+                for which in ("text", "bytes", "query", "rewound"):
+                    classify(ctx, guarded(lambda: lazy(which)), (jsonpath.JSONPathError,), "evaluate(stream closed or rewound after the call)", dict(case, doc=d))
 
 
 class _EnvFacade:
